@@ -451,8 +451,6 @@ class SR:
             if b.root is not None and c > 0:
                 r.root = b.root * (c * c)
             return r
-        if a.root is not None and b.root is not None and (a is b or a.key() == b.key()):
-            return a.root            # sqrt(X) * sqrt(X) = X
         if a.d or b.d:
             d = dict(a.d)
             for k, e in b.d.items():
@@ -516,8 +514,6 @@ class SR:
                 return SR.const(1)
             if k < 0:
                 return (self ** (-k)).inv() if not self.is_const() else SR.const(Fraction(1) / self.cval() ** (-k))
-            if self.root is not None and k % 2 == 0:
-                return self.root ** (k // 2)
             return SR.mk(P.p_pow(self.n, k), {kk: ee * k for kk, ee in self.d.items()})
         if e.denominator == 2:
             return self.sqrt() ** e.numerator
@@ -1096,6 +1092,11 @@ def sqrt(x) -> SR:
     else:
         coef = sqrt_const(lc)
         rad = SR(P.p_scale(x.n, Fraction(1) / lc), x.d)
+    # sqrt of a monomial in positive atoms splits into one root per atom: sqrt(m1*m2) = sqrt(m1)*sqrt(m2)
+    split = _split_monomial_sqrt(rad)
+    if split is not None:
+        r = split * coef
+        return r
     # perfect squares of single atoms known non-negative: sqrt(v^2) = v
     k = rad.key()
     hit = REG.sqrt_cache.get(k)
@@ -1114,12 +1115,19 @@ def sqrt(x) -> SR:
             v.root = radc
             if not radc.d:
                 P.SQUARE_RULES[a.idx] = radc.n
-            # definition: v >= 0 and v^2 * den == num  (division free)
+            # definition: v >= 0 and v^2 * den == num  (division free); where the radicand may be negative (numpy: nan)
+            # the definition is conditional on radicand >= 0
             lhs = a.z * a.z
             if radc.d:
-                REG.add_axiom(z3.And(a.z >= 0, lhs * poly_z3(_den_poly(radc.d)) == poly_z3(radc.n)))
+                body = z3.And(a.z >= 0, lhs * poly_z3(_den_poly(radc.d)) == poly_z3(radc.n))
             else:
-                REG.add_axiom(z3.And(a.z >= 0, lhs == poly_z3(radc.n)))
+                body = z3.And(a.z >= 0, lhs == poly_z3(radc.n))
+            sg = radc.sign()
+            if sg in (0, 1, 2):
+                REG.add_axiom(body)
+            else:
+                nonneg = radc >= 0
+                REG.add_axiom(z3.Implies(nonneg.z, body) if isinstance(nonneg, SB) else body)
             hit = v
         REG.sqrt_cache[k] = hit
     if coef.is_const() and coef.cval() == 1:
@@ -1130,6 +1138,36 @@ def sqrt(x) -> SR:
     elif hit.root is not None:
         r.root = x
     return r
+
+
+def _split_monomial_sqrt(rad: SR):
+    """sqrt(prod a_i^e_i / prod b_j^f_j) for positive atoms with more than one distinct atom (or an exponent > 1)"""
+    if len(rad.n) != 1:
+        return None
+    (m, c), = rad.n.items()
+    if c != 1:
+        return None
+    parts = [(at, e, False) for at, e in m]
+    for k, e in rad.d.items():
+        f = REG.key2poly[k]
+        if len(f) != 1:
+            return None
+        (fm, fc), = f.items()
+        if fc != 1 or len(fm) != 1 or fm[0][1] != 1:
+            return None
+        parts.append((fm[0][0], e, True))
+    if not parts or any(at not in P.POSITIVE for at, _, _ in parts):
+        return None
+    if len(parts) == 1 and parts[0][1] == 1:
+        return None            # a single atom to the first power: the ordinary path creates its root
+    out = SR.const(1)
+    for at, e, inv in parts:
+        a = SR.atom(at)
+        term = (a ** (e // 2)) if e // 2 else SR.const(1)
+        if e % 2:
+            term = term * sqrt(a)
+        out = out / term if inv else out * term
+    return out
 
 
 def _monomial_sqrt(rad: SR):
@@ -1227,6 +1265,11 @@ def fn_atom(fn: str, x: SR) -> SR:
             return SR.const(_half_even(c))
         if fn == "floor":
             return SR.const(math.floor(c))
+    if fn == "rint" and x.n:
+        # rint is odd (lemma L4, round-half-even): one symbol per argument up to sign
+        lead = max(x.n, key=lambda m: (sum(e for _, e in m), m))
+        if x.n[lead] < 0:
+            return -fn_atom("rint", -x)
     k = (fn, x.key())
     hit = REG.fn_cache.get(k)
     if hit is not None:
